@@ -164,4 +164,52 @@ theorem flagJump_succ (j : α) (dt : Int) (z : List α) (k : Nat) :
   | nil => rfl
   | cons a t => rfl
 
+theorem classifyIdx_flags_getElem? (pick : List Nat → Nat) (s j : α) (dt : Int) (zeta rain : List α)
+    (k : Nat) (hk : k < zeta.length) (hl : zeta.length = rain.length) :
+    (classifyIdx pick s j dt zeta rain).flags[k]? =
+      some ((flagJump j dt zeta).getD k false,
+            (mysteryMask (flagJump j dt zeta) (wet rain)).getD k false,
+            (interstormFlag (flagJump j dt zeta) (wet rain)).getD k false) := by
+  show (List.zipWith (fun a bc => (a, bc)) (flagJump j dt zeta)
+    (List.zip (mysteryMask (flagJump j dt zeta) (wet rain))
+      (interstormFlag (flagJump j dt zeta) (wet rain))))[k]? = _
+  have h1 : k < (flagJump j dt zeta).length := by rw [flagJump_length]; exact hk
+  have h2 : k < (mysteryMask (flagJump j dt zeta) (wet rain)).length := by
+    rw [mysteryMask_length', flagJump_length, wet_length]; omega
+  have h3 : k < (interstormFlag (flagJump j dt zeta) (wet rain)).length := by
+    rw [interstormFlag_length, flagJump_length, wet_length]; omega
+  rw [List.zip_eq_zipWith, List.getElem?_zipWith, List.getElem?_zipWith]
+  simp only [List.getD_eq_getElem?_getD, List.getElem?_eq_getElem h1, List.getElem?_eq_getElem h2,
+    List.getElem?_eq_getElem h3, Option.getD_some]
+
+/-! ### the rain-depth view -/
+
+theorem totalRainDepth_steps (db : Loaded α) (storm : Int × Int) (dt : Int) (hdt : 0 < dt)
+    (hrows : ∀ r ∈ db.rain, r.2.1 = r.1 + dt) (hal : ∀ r ∈ db.rain, dt ∣ (storm.2 - r.1)) :
+    totalRainDepth db storm =
+      Num.sum ((db.rain.filter (fun r => decide (storm.1 ≤ r.1) && decide (r.1 < storm.2))).map
+        (fun r => Num.div (Num.mul r.2.2 (Num.ofInt dt)) (Num.ofInt 3600))) := by
+  unfold totalRainDepth
+  have hf : db.rain.filter (fun r => decide (storm.1 ≤ r.1) && decide (r.2.1 ≤ storm.2)) =
+      db.rain.filter (fun r => decide (storm.1 ≤ r.1) && decide (r.1 < storm.2)) := by
+    apply List.filter_congr
+    intro r hr
+    have h1 := hrows r hr
+    have h2 := hal r hr
+    have : (r.2.1 ≤ storm.2) ↔ (r.1 < storm.2) := by
+      rw [h1]
+      constructor
+      · intro h; omega
+      · intro h
+        have := Int.le_of_dvd (by omega) h2
+        omega
+    simp only [this]
+  rw [hf]
+  congr 1
+  apply List.map_congr_left
+  intro r hr
+  have hr' := (List.mem_filter.1 hr).1
+  have : r.2.1 - r.1 = dt := by rw [hrows r hr']; omega
+  rw [this]
+
 end Spowtd
